@@ -17,7 +17,9 @@ import (
 	"github.com/NibiruChain/nibiru/v2/app"
 	"github.com/NibiruChain/nibiru/v2/x/common/testutil/testapp"
 	"github.com/NibiruChain/nibiru/v2/x/evm"
+	"github.com/NibiruChain/nibiru/v2/x/evm/embeds"
 	"github.com/NibiruChain/nibiru/v2/x/evm/evmtest"
+	"github.com/NibiruChain/nibiru/v2/x/evm/precompile"
 
 	"verif/harness/internal/easm"
 	"verif/harness/internal/hx"
@@ -337,6 +339,13 @@ func runEvmTx(r *hx.R, n int, w *hx.W, _ []string) error {
 						sp.to, sp.gasLimit, sp.kind = &toAcc, 20_000, "fail" // below the intrinsic gas
 					default:
 						sp.to = &toAcc
+						if r.Chance(1, 2) {
+							// a successful call of a Nibiru precompile's query method (no value, the sender's balance untouched in the
+							// StateDB): the precompile entry flushes the StateDB — with the sender's pinned nonce — into its cache context
+							pcAddr := precompile.PrecompileAddr_FunToken
+							in, _ := embeds.SmartContract_FunToken.ABI.Pack("whoAmI", from.NibiruAddr.String())
+							sp.to, sp.data, sp.gasLimit = &pcAddr, in, 200_000
+						}
 					}
 					if drain && j < 2 {
 						sp = ethMsgSpec{from: from, nonce: next[key], gasLimit: 21000, price: new(big.Int).Set(e12), value: new(big.Int).Set(drainVal), kind: "transfer"}
